@@ -6,7 +6,7 @@ ID=$1; K=$2
 SRC=/tmp/wt/out-$ID
 OUT=/verif/seeded/$ID-$K
 W=/tmp/confirm-$ID-$K
-rm -rf $W; git -C /repo worktree add -q --detach $W 0766864 || exit 2
+BASE=$(cat $SRC/BASE 2>/dev/null || echo 0766864); rm -rf $W; git -C /repo worktree add -q --detach $W $BASE || exit 2
 cd $W
 PYTHONPATH=$W /venv/bin/python $SRC/demo$K.py > $W.demo0.log 2>&1; d0=$?
 git apply $SRC/patch$K.diff; ap=$?
@@ -17,11 +17,11 @@ mkdir -p $OUT
 cp $SRC/patch$K.diff $OUT/patch.diff; cp $SRC/demo$K.py $OUT/demo.py; cp $SRC/notes$K.md $OUT/notes.md 2>/dev/null
 python3 - <<PY
 import json
-json.dump({"property": "$ID", "origin": "independent sub-agent given only the property text and a scratch worktree of the pinned commit 0766864",
+json.dump({"property": "$ID", "origin": "independent sub-agent given only the property text and a scratch worktree of commit $BASE",
  "confirmed": {"patch_applies_to_pinned_commit": $ap == 0, "imports": $imp == 0,
    "demo_exit_without_change": $d0, "demo_exit_with_change": $d1,
    "baseline_404_still_pass_with_change": $b == 0, "baseline_summary": open("$W.base.log").read().strip().splitlines()[:3]},
- "ran": ["git worktree add --detach $W 0766864", "PYTHONPATH=$W /venv/bin/python demo.py  (before and after git apply patch.diff)", "/verif/tools/baseline.py $W"],
+ "ran": ["git worktree add --detach $W $BASE", "PYTHONPATH=$W /venv/bin/python demo.py  (before and after git apply patch.diff)", "/verif/tools/baseline.py $W"],
  "needs_to_manifest": "see notes.md", "detected_by": "filled in by tools/score_mutants.py"}, open("$OUT/meta.json","w"), indent=1)
 PY
 cd /; git -C /repo worktree remove --force $W; rm -f $W.demo0.log $W.demo1.log $W.base.log
